@@ -146,7 +146,9 @@ func DrawProfile(property, tier string, r *PRNG) *Profile {
 		scale(p.Weights, []string{"BankSend"}, 1.5)
 		scale(p.Weights, dataKinds, 0.1)
 		p.StyleRate = Pick(r, []float64{0.1, 0.3, 0.5}) // amounts are strings read by more than one parser
-		if (thorough && r.Chance(0.5)) || r.Chance(0.25) {
+		core("UpdBasketFee", "UpdClassFee", "CreateClass")
+		scale(p.Weights, []string{"UpdBasketFee", "UpdClassFee"}, 3) // fees are burned: also a way for supply to change
+		if (thorough && r.Chance(0.5)) || r.Chance(0.33) {
 			p.WideW = 2 // "very large totals" are part of the property's domain: also in the quick tier
 		}
 	case "C06", "C12":
